@@ -479,6 +479,24 @@ _vbi_asprintf			(char **		dstp,
 #undef sprintf
 #define sprintf use_snprintf_or_asprintf_instead
 
+/* Verification hook (never defined by the repository's build): marks an
+   access to a memory region shared between threads. The tracer is supplied
+   by the test driver; without one the marker does nothing. */
+#ifdef ZVBI_VERIF
+extern void
+zvbi_verif_region		(const char *		region,
+				 int			write,
+				 const char *		function)
+  __attribute__ ((weak));
+#  define VERIF_REGION(region, write)					\
+	do {								\
+		if (zvbi_verif_region)					\
+			zvbi_verif_region (region, write, __FUNCTION__);	\
+	} while (0)
+#else
+#  define VERIF_REGION(region, write) do {} while (0)
+#endif
+
 #endif /* MISC_H */
 
 /*
